@@ -5,6 +5,7 @@ spec (clauses H.*), so a generator bug surfaces as a machinery failure (exit 2),
 IR nodes (dicts):  prim{name,lt?,prec?,scale?} record{full,ns,fields[{name,type,hasdef,default,aliases}],aliases}
                    enum{full,ns,syms,hasdef,default} fixed{full,ns,size,lt?..} array{items} map{values} union{br} ref{full}
 """
+import array
 import datetime
 import types
 import decimal
@@ -50,6 +51,7 @@ class Gen:
         self._reserved = None
         self._kw_used = set()
         self.letter_suffixes = False   # type names ending in letters (the schema-repository checks)
+        self.typed_arrays = False      # array.array data now and then (writing / validation checks)
         self.mapping_views = False     # maps now and then offered as read-only mapping views (validation / writing checks only)
         self.unknown_logical = True    # now and then an annotation no implementation knows ("x-custom"): to be ignored
         self.overlap_bias = 0.07       # probability that a union is one of records with nested field sets
@@ -719,8 +721,16 @@ class Gen:
         if k == "array":
             n = self.coll_size(depth)
             out = [self.datum(t["items"], depth + 1, hints, omit) for _ in range(n)]
-            if r.random() < 0.1 and not (self.resolve(t["items"])["k"] == "union" and False):
-                return out
+            it = self.resolve(t["items"])
+            if self.typed_arrays and out and it["k"] == "prim" and "lt" not in it and r.random() < 0.15:
+                # a typed array (array.array) is a sequence like any other; its item width need not be the schema's
+                try:
+                    if it["name"] in ("int", "long") and all(type(x) is int for x in out):
+                        return array.array("q", out)
+                    if it["name"] in ("float", "double") and all(type(x) is float for x in out):
+                        return array.array(r.choice("fd"), out)
+                except (OverflowError, TypeError):
+                    pass
             return out
         if k == "map":
             n = self.coll_size(depth)
